@@ -240,6 +240,20 @@ func (vm *VM) Run(program *Program, env interface{}) (out interface{}, err error
 		case OpRange:
 			b := vm.pop()
 			a := vm.pop()
+			// A bound outside the int domain (an unsigned or float value
+			// beyond it) is not converted, which would wrap: the range is
+			// then either empty or larger than any budget.
+			if lo, hi := outsideInt(a), outsideInt(b); lo != 0 || hi != 0 {
+				switch {
+				case lo > 0 && hi <= 0, hi < 0 && lo >= 0:
+					vm.push(makeRange(1, 0)) // the end precedes the start
+				case lo == hi:
+					panic("range bounds out of the int domain")
+				default:
+					panic("memory budget exceeded")
+				}
+				break
+			}
 			min := toInt(a)
 			max := toInt(b)
 			size := 0 // An empty range (max < min) creates no elements.
